@@ -1,5 +1,6 @@
 import Cello.File
 import Cello.FileText
+import Cello.FileProg
 import CelloGen.File
 import Driver.Common
 /- driver for engine `file` (C20): interprets the same op files as harness/h_file.c on the model
@@ -37,6 +38,8 @@ structure Sys where
   depth : Nat := 0
   nontrivial : Nat := 0
   ev : List WEv := []                    -- what the with loops did (the model's own protocol check runs over this)
+  openSrcBad : Nat := 0                  -- sopen calls on which File_Open AS EXTRACTED (CelloGen.File.openProg) differs from `fileOpen`
+  openBr : List (String × Nat) := []     -- branch counters of File_Open (held / free × fclose × fopen outcome)
   pm : Multi PRef := ⟨PRef.init, [(0, none), (1, none)], []⟩   -- the Process objects over the reference pipe library
   pInWith : List Nat := []
 
@@ -418,6 +421,15 @@ where
           if !fileOk k then return ← bad
           if busy s k (some o) then IO.println "O open busy"; return (s, i + 1)
           if k = fileFull && !(m = .w || m = .a) then IO.println "O open unsup"; return (s, i + 1)
+          -- extension round: the statements of File_Open as the translator extracted them, executed on this very state
+          let f0 := s.m.held o
+          let a := fileOpenSrc refIO cfg s.m.lib f0 k m
+          let b := fileOpen refIO cfg s.m.lib f0 k m
+          let same := a.f == b.f && a.calls == b.calls && excText a.out == excText b.out && a.lib.streams == b.lib.streams
+          let br := openBranch b f0.isSome
+          let cnt := match s.openBr.find? (fun p => p.1 == br) with | some p => p.2 | none => 0
+          let s := { s with openSrcBad := s.openSrcBad + (if same then 0 else 1),
+                            openBr := (br, cnt + 1) :: s.openBr.filter (fun p => p.1 != br) }
           let s' ← simple s o "open" (.op (.open k m)) none
           return (s', i + 1)
         | _, _ => bad
@@ -752,4 +764,7 @@ def main (args : List String) : IO Unit := do
   IO.println s!"R gbracketed={(gtrack [] (untag s.m.log)).isSome} fresh={freshCalls [] (untag s.m.log)}"
   -- … and on the events of its with loops: every source expression evaluated once, every stop_in on the loop variable
   IO.println s!"R withproto={(wtrack ([], none) s.ev) == some ([], none)}"
+  -- … and on File_Open / with_in as PROGRAMS extracted from the source: the program agreed with the model on every sopen of this history
+  IO.println s!"R opensrc={s.openSrcBad == 0} withsrc={withCfgOf CelloGen.File.withProg == some cfgW}"
+  IO.println s!"I open-branches {" ".intercalate (s.openBr.map (fun p => s!"{p.1}={p.2}"))}"
   IO.println s!"S reads={s.nontrivial}"
